@@ -99,3 +99,83 @@ theorem history_restores_ancestors {d : Doc} (hv : Table) (f h : Nat) (acc : Ent
     · exact ih hm _
 
 end Rfsm.Interp
+
+namespace Rfsm.Interp
+
+/-- entering a plain atomic state (no history, not compound, not parallel) adds exactly that state -/
+theorem addDesc_atomic {d : Doc} (hv : Table) (f v : Nat) (acc : EntryAcc)
+    (hn : isHistoryState d v = false) (hc : isCompoundState d v = false) (hp : isParallelState d v = false) :
+    addDesc d hv (f + 1) v acc = { acc with toEnter := oadd acc.toEnter v } := by
+  unfold addDesc
+  simp only [hn, hc, hp, Bool.false_eq_true, ↓reduceIte]
+
+/-- walking up from a child of `p` to `p` passes no state -/
+theorem getProperAncestors_child {d : Doc} (v p : Nat) (hp : parentOf d v = p) :
+    getProperAncestors d v p = [] := by
+  unfold getProperAncestors
+  split
+  · by_cases h0 : p = 0
+    · subst h0
+      unfold ancestors
+      rw [hp, ancestorsAux_zero]
+      rfl
+    · unfold ancestors fuelOf ancestorsAux
+      rw [hp, if_neg h0]
+      simp
+  · rfl
+
+theorem addAnc_child {d : Doc} (hv : Table) (f v p : Nat) (acc : EntryAcc) (hp : parentOf d v = p) :
+    addAnc d hv f v p acc = acc := by
+  cases f with
+  | zero => simp [addAnc]
+  | succ f =>
+    unfold addAnc
+    rw [getProperAncestors_child v p hp]
+    rfl
+
+/-- **exactness for a shallow history whose stored states are plain atomic children**: targeting the
+    history state adds exactly the stored states to the entry set — nothing else -/
+theorem history_restores_exactly {d : Doc} (hv : Table) (f h : Nat) (acc : EntryAcc) (vs : List Nat)
+    (hh : isHistoryState d h = true) (hval : tget hv h = some vs)
+    (hvs : ∀ v ∈ vs, isHistoryState d v = false ∧ isCompoundState d v = false ∧
+      isParallelState d v = false ∧ parentOf d v = (getState d h).parent) :
+    ∀ x, x ∈ (addDesc d hv (f + 2) h acc).toEnter ↔ x ∈ acc.toEnter ∨ x ∈ vs := by
+  intro x
+  unfold addDesc
+  simp only [hh, ↓reduceIte, hval]
+  clear hval
+  have hA : ∀ (l : List Nat) (a : EntryAcc), (∀ v ∈ l, parentOf d v = (getState d h).parent) →
+      l.foldl (fun a s => addAnc d hv (f + 1) s (getState d h).parent a) a = a := by
+    intro l
+    induction l with
+    | nil => intro a _; rfl
+    | cons w l ih =>
+      intro a hl
+      simp only [List.foldl_cons]
+      rw [addAnc_child hv _ w _ a (hl w List.mem_cons_self)]
+      exact ih a (fun v hv' => hl v (List.mem_cons_of_mem _ hv'))
+  rw [hA vs _ (fun v hv' => (hvs v hv').2.2.2)]
+  have hD : ∀ (l : List Nat) (a : EntryAcc),
+      (∀ v ∈ l, isHistoryState d v = false ∧ isCompoundState d v = false ∧ isParallelState d v = false) →
+      (x ∈ (l.foldl (fun a s => addDesc d hv (f + 1) s a) a).toEnter ↔ x ∈ a.toEnter ∨ x ∈ l) := by
+    intro l
+    induction l with
+    | nil => intro a _; simp
+    | cons w l ih =>
+      intro a hl
+      simp only [List.foldl_cons]
+      obtain ⟨h1, h2, h3⟩ := hl w List.mem_cons_self
+      rw [addDesc_atomic hv f w a h1 h2 h3, ih _ (fun v hv' => hl v (List.mem_cons_of_mem _ hv'))]
+      simp only [mem_oadd, List.mem_cons]
+      constructor
+      · rintro ((h | h) | h)
+        · exact Or.inl h
+        · exact Or.inr (Or.inl h)
+        · exact Or.inr (Or.inr h)
+      · rintro (h | h | h)
+        · exact Or.inl (Or.inl h)
+        · exact Or.inl (Or.inr h)
+        · exact Or.inr h
+  exact hD vs acc (fun v hv' => ⟨(hvs v hv').1, (hvs v hv').2.1, (hvs v hv').2.2.1⟩)
+
+end Rfsm.Interp
